@@ -189,11 +189,14 @@ Definition greedy_policy (q : qtab T) (s a : nat) : T :=
 
 (* ---- comparison with the implementation's returned data ---- *)
 Definition relclose (tol x y : T) : bool := nabs (x - y) <=? tol * (n1 + nabs y).
+(* relative to the compared value plus an absolute term: float rounding of q + a*(r + g*t - q) is relative to the
+   largest OPERAND of the run (q = 2^20 updated to -1.17 carries an absolute error ~1e-10), not to the result *)
+Definition absrelclose (tol atol x y : T) : bool := nabs (x - y) <=? tol * (n1 + nabs y) + atol.
 Definition keys_same (ordered : bool) (k1 k2 : list nat) : bool :=
   if ordered then forallb (fun p => (fst p =? snd p)%nat) (combine k1 k2) && (length k1 =? length k2)%nat
   else forallb (fun s => memb s k2) k1 && forallb (fun s => memb s k1) k2 && (length k1 =? length k2)%nat.
-Definition table_close (tol : T) (q : qtab T) (iq : nat -> nat -> T) : bool :=
-  forallb (fun s => forallb (fun a => relclose tol (iq s a) (qval q s a)) (acts s)) (qkeys q).
+Definition table_close (tol atol : T) (q : qtab T) (iq : nat -> nat -> T) : bool :=
+  forallb (fun s => forallb (fun a => absrelclose tol atol (iq s a) (qval q s a)) (acts s)) (qkeys q).
 Definition policy_close (tol : T) (q : qtab T) (ipol : nat -> nat -> T) : bool :=
   forallbn (nS m) (fun s => forallbn (nA m) (fun a => relclose tol (ipol s a) (greedy_policy q s a))).
 
@@ -202,13 +205,13 @@ End TD.
 (* the whole check on one run: [experience valid; episodes chain; argmax picks legitimate;
    key set equal; table equal up to tol; returned policy greedy w.r.t. the RETURNED table] *)
 Definition c10_check {T} {NT : Num T} (m : mdp T) (q0 : list (list T)) (alpha eps : T) (L : learner)
-           (evs : list (event T)) (ikeys : list nat) (iq ipol : list (list T)) (tol : T) : list bool :=
+           (evs : list (event T)) (ikeys : list nat) (iq ipol : list (list T)) (tol atol : T) : list bool :=
   let qm := train m (untab2 q0) alpha eps L evs in
   [ valid_experience m evs;
     chain_ok m (match L with LSarsa => true | _ => false end) None evs;
     match L with LDouble => dq_picks_ok_all m (untab2 q0) alpha evs | _ => true end;
     keys_same (match L with LDouble => false | _ => true end) (qkeys qm) ikeys;
-    table_close m tol qm (untab2 iq);
+    table_close m tol atol qm (untab2 iq);
     policy_close m tol (mkQ ikeys (untab2 iq)) (untab2 ipol) ].
 
 (* the model's table at its keys (diagnostics / temperature checks) *)
